@@ -4,8 +4,10 @@ import (
 	"encoding/base64"
 	"encoding/xml"
 	"fmt"
+	"strings"
 	"time"
 
+	"github.com/beevik/etree"
 	saml2 "github.com/russellhaering/gosaml2"
 	"github.com/russellhaering/gosaml2/types"
 
@@ -29,7 +31,7 @@ func init() {
 			"the IdP bootstraps from the metadata only: entity ID, endpoints, bindings, flags, validUntil arithmetic, XML round trip, then verifies the SP's next signed message with the published signing certificate and has an assertion encrypted to the published encryption certificate under each listed method accepted; distinct = shape hash (key config, variant, hours, options, outcome)",
 		Directed:   c19Directed,
 		Run:        c19Run,
-		MustHit:    []string{"variant=Metadata", "variant=MetadataWithSLO", "hours>0", "hours<=0", "enc=setter", "sig=setter", "sig=field", "sig=none", "published_signing_cert_used", "published_encryption_cert_used", "xml_roundtrip", "non_utc_location", "near_dst_transition", "signing_key_without_certificate"},
+		MustHit:    []string{"variant=Metadata", "variant=MetadataWithSLO", "hours>0", "hours<=0", "enc=setter", "sig=setter", "sig=field", "sig=none", "published_signing_cert_used", "published_encryption_cert_used", "xml_roundtrip", "non_utc_location", "near_dst_transition", "signing_key_without_certificate", "encryption_key_without_certificate"},
 		RandomRuns: map[string]int{"quick": 3000, "thorough": 20000},
 		Assumptions: []string{"an encryption key is always configured (the library documents it as required)",
 			"XML round trip is compared as values: encoding/xml fills XMLName bookkeeping fields on the way back"},
@@ -79,6 +81,14 @@ func c19Run(r *core.Run) {
 		o.Cfg.SigCertRaw = []byte{}
 		r.Probe("signing_key_without_certificate")
 	}
+	// an encryption key handed to the setter without its certificate (rolled over before the certificate was
+	// loaded), possibly on top of an older key pair in the deprecated field: the setter key is the one that
+	// decrypts, and there is no certificate of it to publish
+	encCertless := !certless && t.Int(10, "c19.enccertless") == 1 && (o.EncStyle == world.KeySetter || o.EncStyle == world.KeyBothDiffer || o.EncStyle == world.KeyBothDifferTLS)
+	if encCertless {
+		o.Cfg.EncCertRaw = []byte{}
+		r.Probe("encryption_key_without_certificate")
+	}
 	if !o.PreHistory(r) || !o.Build() {
 		return
 	}
@@ -117,6 +127,19 @@ func c19Run(r *core.Run) {
 	r.Logf("%s(%d) keycfg=%s now=%s loc=%s -> %s", variant, hours, o.KeyCfg(), now.UTC().Format(time.RFC3339Nano), o.Cfg.Loc, out.Class())
 	r.Shape(fmt.Sprintf("%s.%d.%s.sr%v.sk%v.h%v.%s", variant, hours, o.KeyCfg(), o.Cfg.SignRequests, o.Cfg.SkipSig, o.Hostile, out.Class()))
 	r.Sample = obs("variant", variant, "hours", hours, "key_config", o.KeyCfg(), "outcome", out.Class())
+	if encCertless && out.Panic == "" {
+		if !out.OK() {
+			return // nothing to publish: refusing is the safe outcome
+		}
+		for _, kd := range md.SPSSODescriptor.KeyDescriptors {
+			if kd.Use == "encryption" && len(kd.KeyInfo.X509Data.X509Certificates) > 0 && kd.KeyInfo.X509Data.X509Certificates[0].Data != "" {
+				ctx["published"] = trunc(kd.KeyInfo.X509Data.X509Certificates[0].Data, 60)
+				r.Fail("metadata", "C19/published-encryption-certificate-is-not-the-decryption-key/"+o.KeyCfg()+"/key-without-certificate", ctx)
+				return
+			}
+		}
+		return
+	}
 	if out.Panic != "" || !out.OK() || md == nil || md.SPSSODescriptor == nil {
 		ctx["err"], ctx["panic"] = fmt.Sprint(out.Err), out.Panic
 		r.Fail("produce", "C19/metadata-not-produced/"+o.KeyCfg(), ctx)
@@ -237,6 +260,12 @@ func c19Run(r *core.Run) {
 	if !check(back, "xml") {
 		return
 	}
+	// what an IdP reads with its own reader (names and namespaces as the metadata schema spells them)
+	if why := c19IndependentRead(xb, o, variant, certless); why != "" {
+		ctx["xml"] = trunc(string(xb), 1500)
+		r.Fail("xml", "C19/xml-as-read-by-the-idp/"+why, ctx)
+		return
+	}
 	// ---- the IdP now uses what was published
 	pubSig, pubEnc := "", ""
 	var methods []string
@@ -299,4 +328,108 @@ func c19Run(r *core.Run) {
 			return
 		}
 	}
+}
+
+// c19IndependentRead reads the serialised metadata the way another SAML stack does - by element and
+// attribute names of the metadata schema - and compares the facts an IdP acts on with the configuration.
+func c19IndependentRead(xb []byte, o *Out, variant string, certless bool) string {
+	const MD, DS = "urn:oasis:names:tc:SAML:2.0:metadata", "http://www.w3.org/2000/09/xmldsig#"
+	d := etree.NewDocument()
+	if err := d.ReadFromBytes(xb); err != nil || d.Root() == nil {
+		return "unreadable"
+	}
+	root := d.Root()
+	if root.Tag != "EntityDescriptor" || root.NamespaceURI() != MD {
+		return "root-is-not-md:EntityDescriptor"
+	}
+	if world.PlainAttr(root, "entityID") != o.Cfg.SPIssuer {
+		return "entityID"
+	}
+	var desc *etree.Element
+	for _, c := range root.ChildElements() {
+		if c.Tag == "SPSSODescriptor" && c.NamespaceURI() == MD {
+			desc = c
+		}
+	}
+	if desc == nil {
+		return "no-md:SPSSODescriptor"
+	}
+	boolAttr := func(k string) string { return strings.TrimSpace(world.PlainAttr(desc, k)) }
+	asBool := func(v string) bool { return v == "true" || v == "1" }
+	if asBool(boolAttr("AuthnRequestsSigned")) != o.Cfg.SignRequests {
+		return "AuthnRequestsSigned"
+	}
+	if asBool(boolAttr("WantAssertionsSigned")) != !o.Cfg.SkipSig {
+		return "WantAssertionsSigned"
+	}
+	if world.PlainAttr(desc, "protocolSupportEnumeration") != world.NSProtocol {
+		return "protocolSupportEnumeration"
+	}
+	certs := map[string]string{}
+	for _, kd := range desc.ChildElements() {
+		if kd.Tag != "KeyDescriptor" || kd.NamespaceURI() != MD {
+			continue
+		}
+		use := world.PlainAttr(kd, "use")
+		for _, ki := range kd.ChildElements() {
+			if ki.Tag != "KeyInfo" || ki.NamespaceURI() != DS {
+				continue
+			}
+			for _, xd := range ki.ChildElements() {
+				if xd.Tag != "X509Data" || xd.NamespaceURI() != DS {
+					continue
+				}
+				for _, xc := range xd.ChildElements() {
+					if xc.Tag == "X509Certificate" && xc.NamespaceURI() == DS {
+						certs[use] = strings.TrimSpace(xc.Text())
+					}
+				}
+			}
+		}
+		if use == "encryption" {
+			n := 0
+			for _, em := range kd.ChildElements() {
+				if em.Tag == "EncryptionMethod" && em.NamespaceURI() == MD && world.PlainAttr(em, "Algorithm") != "" {
+					n++
+				}
+			}
+			if n == 0 {
+				return "no-md:EncryptionMethod-with-Algorithm"
+			}
+		}
+	}
+	if certs["encryption"] != base64.StdEncoding.EncodeToString(o.EncCert.DER) {
+		return "encryption-KeyDescriptor"
+	}
+	if !certless && certs["signing"] != base64.StdEncoding.EncodeToString(o.WantSignCert.DER) {
+		return "signing-KeyDescriptor"
+	}
+	acs, slo := 0, 0
+	for _, c := range desc.ChildElements() {
+		if c.NamespaceURI() != MD {
+			continue
+		}
+		switch c.Tag {
+		case "AssertionConsumerService":
+			if world.PlainAttr(c, "Location") != o.Cfg.ACS || world.PlainAttr(c, "Binding") != saml2.BindingHttpPost || world.PlainAttr(c, "index") == "" {
+				return "AssertionConsumerService"
+			}
+			acs++
+		case "SingleLogoutService":
+			if world.PlainAttr(c, "Location") != o.Cfg.SLO || world.PlainAttr(c, "Binding") != saml2.BindingHttpPost {
+				return "SingleLogoutService"
+			}
+			slo++
+		}
+	}
+	if acs != 1 {
+		return "AssertionConsumerService-count"
+	}
+	if variant == "MetadataWithSLO" && slo != 1 {
+		return "SingleLogoutService-count"
+	}
+	if _, err := time.Parse(time.RFC3339Nano, world.PlainAttr(root, "validUntil")); err != nil {
+		return "validUntil"
+	}
+	return ""
 }
